@@ -45,7 +45,7 @@ var c02Pins = []pin{
 func checkC02(c *Ctx) {
 	r := c.R
 	r.Explanation = "Correctness of unification and generalisation over all constraint graphs (principality, annotation-erasure invariance) is value-level and NOT decided. Decided are structural necessary conditions, for all programs at once: " +
-		"(a) traversal constructor coverage (sibling agreement): each of the four FType traversals — the binary unifier compositeTp, the substitution transTVFTypeWithSet, the free-variable collector collectTVarFTypeWithSet and the printer FTypeToGo — has an explicit arm for every component-carrying constructor of FType, computed from the type declarations (1 known finding: compositeTp lacks FRecord/FUnion, so type arguments of user generic types are never unified); " +
+		"(a) traversal constructor coverage (sibling agreement): each of the four FType traversals — the binary unifier compositeTp, the substitution transTVFTypeWithSet, the free-variable collector collectTVarFTypeWithSet and the printer FTypeToGo — has an explicit arm for every component-carrying constructor of FType, computed from the type declarations (the unifier's missing FRecord/FUnion arms were a genuine defect and are repaired); " +
 		"(b) constraint collection is complete (TRAV): collectExprRel, the type-variable collector and the substitution visit every Expr-bearing component of every AST node on every path (helpers inlined, so an early return in a helper is a path); " +
 		"(c) closed forms of the numbering chain (leftover variables collected from the function type first, distinct in first-occurrence order, named Ti by position), of the anchor unifications (declared/fresh result type ↔ body, arguments ↔ parameters by position, slice elements ↔ first element) and of fresh instantiation per reference (GenFuncVar/GenFunc/tpname2tvtp); " +
 		"(d) the result type of a let function is its annotation when present, else a fresh variable; the numbering chain uses only order-preserving library functions (C05.d)."
